@@ -585,7 +585,7 @@ func reportBlocked(c *kit.Case, h *hist, desc map[string]any, what string) {
 	}
 	if calls := h.stuck; len(calls) > 0 {
 		api := calls[0][:strings.Index(calls[0], "\n")]
-		c.Viol("C11/stuck/"+api+"/no-flusher-alive",
+		viol(c, "C11/stuck/"+api+"/no-flusher-alive",
 			api+" can never return: it is parked with a stable stack, no background flusher goroutine exists and no callback is running ("+what+")",
 			witness(h, desc, map[string]any{"parked": calls}))
 		c.Obs("stuck_calls_detected", 1)
@@ -766,7 +766,7 @@ func check(c *kit.Case, h *hist, tg target, desc map[string]any, quiescent bool)
 	sort.Strings(keys)
 	for _, k := range keys {
 		f := found[k]
-		c.Viol(f.key, f.what, witness(h, desc, f.extra))
+		viol(c, f.key, f.what, witness(h, desc, f.extra))
 	}
 
 	// ---- coverage: interleaving signature; non-trivial iff some Wait overlapped
@@ -1251,13 +1251,12 @@ func runQuitRace(c *kit.Case) {
 		reportBlocked(c, h, desc, "first Add did not return")
 		return
 	}
-	if !waitUntil(func() bool { return h.done.Load() >= 1 }, watchdog) {
-		if len(labelled(c.ID)) == 0 {
-			finish(c, h, tg, desc, base, false, idleJump, true) // reports the stranded task
-			return
-		}
-		c.Inconclusive("first task was not executed by the periodic flush")
-		finish(c, h, tg, desc, base, true, idleJump, true)
+	if !waitUntil(func() bool { return h.done.Load() >= 1 }, 5*time.Second) {
+		// not a verdict: the scenario is given up and the history is ended WITHOUT a Wait;
+		// finish() retires the flusher (virtual idle time) and only once no goroutine of
+		// the executor is left decides whether the task was executed, stranded or lost
+		c.Obs("scenarios_given_up", 1)
+		finish(c, h, tg, desc, base, false, idleJump, true)
 		return
 	}
 	c.Obs("tasks_executed_by_periodic_flush_alone", 1)
@@ -1389,10 +1388,9 @@ func runIdleRestart(c *kit.Case) {
 		switch mode {
 		case 0: // wait for the periodic flush, then for the confirmed quit, then Add at once
 			want := int64(id)
-			if !waitUntil(func() bool { return h.done.Load() >= want }, watchdog) {
-				if len(labelled(c.ID)) > 0 {
-					c.Inconclusive("periodic flush did not execute the tasks in time")
-				}
+			if !waitUntil(func() bool { return h.done.Load() >= want }, 5*time.Second) {
+				// not a verdict: give the scenario up, retire the flusher, let the oracle decide by state
+				c.Obs("scenarios_given_up", 1)
 				desc["plan"] = plan
 				finish(c, h, tg, desc, base, false, idleJump, true)
 				return
@@ -1529,7 +1527,7 @@ func runRaw(c *kit.Case) {
 		if gotN > int64(producers*per) {
 			kind = "duplicate"
 		}
-		c.Viol("C11/"+kind+"/periodical-unobserved", fmt.Sprintf("after Wait and quiescence %d tasks (sum %d) were executed, %d (sum %d) were added", gotN, gotSum, producers*per, want), desc)
+		viol(c, "C11/"+kind+"/periodical-unobserved", fmt.Sprintf("after Wait and quiescence %d tasks (sum %d) were executed, %d (sum %d) were added", gotN, gotSum, producers*per, want), desc)
 	}
 	c.Obs("raw_stress_histories", 1)
 	c.Obs("raw_stress_tasks", gotN)
@@ -1537,6 +1535,15 @@ func runRaw(c *kit.Case) {
 }
 
 // ---------------------------------------------------------------- test
+
+var violCount = map[*kit.Case]int{}
+
+func viol(c *kit.Case, key, what string, w any) {
+	violCount[c]++
+	c.Viol(key, what, w)
+}
+
+func violations(c *kit.Case) int { return violCount[c] }
 
 func TestVerifC11(t *testing.T) {
 	logx.Disable()
@@ -1546,14 +1553,33 @@ func TestVerifC11(t *testing.T) {
 	time.Sleep(10 * time.Millisecond)
 
 	lab := func(fn func(c *kit.Case)) func(c *kit.Case) {
-		return func(c *kit.Case) { kit.WithLabel(c.ID, func() { fn(c) }) }
+		return func(c *kit.Case) {
+			runs := 1
+			if kit.GetEnv().Only != "" {
+				runs = 200 // --replay: schedules are not reproducible, so the case is repeated and the hits are counted
+			}
+			hits := 0
+			for i := 0; i < runs; i++ {
+				c.R = kit.NewRand(c.Seed)
+				was := c.Violated()
+				before := violations(c)
+				kit.WithLabel(c.ID, func() { fn(c) })
+				if violations(c) > before || (!was && c.Violated()) {
+					hits++
+				}
+			}
+			if runs > 1 {
+				c.Obs("replay_runs", int64(runs))
+				c.Obs("replay_runs_with_violation", int64(hits))
+			}
+		}
 	}
-	kit.Run(t, "C11", "handoff", kit.N(800, 12000), lab(runHandoff))
-	kit.Run(t, "C11", "quit-race", kit.N(600, 9000), lab(runQuitRace))
-	kit.Run(t, "C11", "idle-restart", kit.N(600, 9000), lab(runIdleRestart))
 	kit.Run(t, "C11", "random", kit.N(12000, 200000), lab(func(c *kit.Case) { runRandom(c, "periodical") }))
 	kit.Run(t, "C11", "random-bulk", kit.N(2000, 30000), lab(func(c *kit.Case) { runRandom(c, "bulk") }))
 	kit.Run(t, "C11", "random-chunk", kit.N(2000, 30000), lab(func(c *kit.Case) { runRandom(c, "chunk") }))
+	kit.Run(t, "C11", "handoff", kit.N(800, 12000), lab(runHandoff))
+	kit.Run(t, "C11", "quit-race", kit.N(600, 9000), lab(runQuitRace))
+	kit.Run(t, "C11", "idle-restart", kit.N(600, 9000), lab(runIdleRestart))
 	kit.Run(t, "C11", "raw-stress", kit.N(400, 6000), lab(runRaw))
 	kit.Run(t, "C11", "sqlx-bulkinserter", kit.N(8, 64), lab(runSQL))
 	kit.End()
